@@ -317,7 +317,7 @@ FAMILIES = [('random', family_random), ('snapshot-chain', family_snapshot_chain)
 
 def gen_history(rng, dbdir, nops):
     opts = rng.choice(opt_sets(rng, None))
-    name, fam = rng.choice([f for f in FAMILIES if f[0] not in ('repair', 'lifecycle')])
+    name, fam = rng.choice([f for f in FAMILIES if f[0] not in ('repair', 'lifecycle', 'corrupt')])
     return name, opts, fam(rng, dbdir, opts, nops)
 
 
@@ -422,3 +422,50 @@ def family_lifecycle(rng, dbdir, opts, nops):
 
 
 FAMILIES.append(('lifecycle', family_lifecycle))
+
+
+def family_corrupt(rng, dbdir, opts, nops):
+    """build a small multi-table database, close it, then for many alterations: copy it, damage one file of the copy,
+    open the copy with paranoid checks and checksum verification, look every key up and scan in both directions"""
+    import os
+    base = os.path.dirname(dbdir)
+    o = rng.choice(['wbuf=65536 block=1024 restart=4', 'wbuf=65536 block=1024 comp=1 filter=10', 'wbuf=65536 block=4096 restart=16 filter=3', 'wbuf=65536 block=2048 mmap=0'])
+    h = Hist(rng, dbdir, o, 14)
+    h.open()
+    for i in range(3):
+        for k in h.keys:
+            if rng.chance(3, 4):
+                h.emit('put %s %s' % (proto.arg(k), '@%d~%d' % (rng.below(1 << 20), rng.range(200, 6000))))
+        if rng.chance(1, 3):
+            h.emit('del %s' % proto.arg(h.key()))
+        h.emit('flushmem')
+        if rng.chance(1, 2):
+            h.emit('compact %d * *' % rng.below(3))
+    h.write_some(3, small=True)       # stays in the log
+    h.read_all(with_snaps=False)
+    h.emit('close')
+    dst = os.path.join(base, 'damaged')
+    h.emit('verify 1')
+    for _ in range(nops):
+        r = rng.below(20)
+        kind = 'ldb' if r < 14 else ('log' if r < 17 else ('MANIFEST' if r < 19 else 'CURRENT'))
+        m = rng.below(10)
+        pos = 'p%d' % rng.below(1000) if rng.chance(4, 5) else str(rng.below(64))
+        if m < 4:
+            mut = 'x:%s:%d' % (pos, 1 << rng.below(8))
+        elif m < 6:
+            mut = 's:%s:%d' % (pos, rng.choice([0, 255]))
+        elif m < 8:
+            mut = 't:%s' % pos
+        else:
+            mut = 'z:%s:512' % pos
+        h.emit('corruptcopy %s %s %s:%d %s' % (dbdir, dst, kind, rng.below(6), mut))
+        h.emit('open %s %s paranoid=1 create=0' % (dst, o))
+        for k in h.keys:
+            h.emit('get %s' % proto.arg(k))
+        h.emit('scanall')
+        h.emit('close')
+    return h.lines
+
+
+FAMILIES.append(('corrupt', family_corrupt))
